@@ -126,6 +126,43 @@ func genBitmaps(g *Gen, n int, maxWords int, singleWords int, emit func(ws []uin
 		}
 		emit(ws)
 	}
+	// neighbouring words that are related as VALUES (equal, complementary, summing to 2^64, cancelling under xor),
+	// alone among empty words, at every position relative to 4- and 8-word blocks: an emptiness test over a block
+	// written with the wrong operator (w0^w1|..., w0+w1|...) is wrong for exactly such words
+	reps := 1
+	if !g.Quick() {
+		reps = 4
+	}
+	for rep := 0; rep < reps; rep++ {
+		for rel := 0; rel < 11; rel++ {
+			for off := 1; off <= 9; off++ {
+				var x uint64
+				switch (rel + off + rep) % 3 {
+				case 0:
+					x = 1 << uint(r.Intn(64))
+				case 1:
+					x = r.Uint64() & r.Uint64() & r.Uint64()
+				default:
+					x = r.Uint64() | 1<<63
+				}
+				if x == 0 {
+					x = 1 << 63
+				}
+				y := r.Uint64() | 1
+				blk := [][]uint64{{x, x}, {x, ^x}, {x, -x}, {x, x, x, x}, {1 << 63, 1 << 63}, {1 << 63, 1 << 63, 1 << 63, 1 << 63},
+					{^uint64(0), 1}, {x, y, x ^ y}, {x, y, -(x + y)}, {x, 0, x}, {x, 0, -x}}[rel]
+				ws := make([]uint64, 20+rep)
+				copy(ws[off:], blk)
+				if (rel+off)%2 == 0 { // a 1-bit far behind the block, which a scan that skips the block finds instead
+					ws[len(ws)-1-r.Intn(2)] |= 1 << uint(r.Intn(64))
+				}
+				if (rel+off)%3 == 0 {
+					ws[0] |= 1 << uint(r.Intn(64))
+				}
+				emit(ws)
+			}
+		}
+	}
 	for i := 0; i < n; i++ {
 		nw := 1 + r.Intn(maxWords)
 		if r.Intn(4) == 0 {
